@@ -186,7 +186,7 @@ func CountFunc(query *Query, current Map, functionOptions *FunctionOptions, args
 	if len(args) == 0 {
 		all, ok := current["*"]
 		if !ok {
-			return len(query.from), nil
+			return len(query.processed), nil
 		}
 		slice, ok := all.([]any)
 		if !ok {
